@@ -28,5 +28,10 @@ func Gen(t *rapid.T) *Case {
 		c.Msgs = append(c.Msgs, m)
 	}
 	c.Split = rapid.IntRange(0, n).Draw(t, "split")
+	if c.Direct {
+		c.OffStyle = rapid.IntRange(0, 2).Draw(t, "offstyle")
+	} else {
+		c.Store = rapid.SampledFrom([]string{"", "", "sqlite", "sqlite", "durable"}).Draw(t, "store")
+	}
 	return c
 }
